@@ -1,8 +1,61 @@
-(** C33 — zoekt-local-sync previews are side-effect free and faithful.  Model: Model/LocalSync.v. *)
+(** C33 — zoekt-local-sync previews are side-effect free and faithful.
+    Model: Model/LocalSync.v (runSync, runRemove and everything below them that decides what happens to the
+    index directory; every file-system mutation is an [op], every printed line a [line]).
+    [run m tree w c inv]: the command [c] (sync over roots / remove with selectors) in mode [m] on the world
+    [tree] (directory tree), [w] (what a build of each repository would record) and the index [inv]. *)
 From ZV Require Import Lib.Base Model.LocalSync Proofs.LocalSync.
 
-(** Without -f neither sync nor remove performs any file-system mutation, for every world, index state and
-    command: no shard removal, no build, and also no MkdirAll of the index directory and no lock file. *)
+(** Without -f neither sync nor remove performs any file-system mutation, for every world, every index state
+    (including unreadable shards) and every command: no shard removal, no build, and also no MkdirAll of the
+    index directory and no lock file. *)
 Theorem C33_dry_no_ops : forall tree w c inv, r_ops (run Dry tree w c inv) = [].
 Proof. exact dry_no_ops. Qed.
 Print Assumptions C33_dry_no_ops.
+
+(** What the preview announces is exactly what the same command with -f performs on the same state, for sync
+    and remove, every world, index and root set / selector list: the shard files of the "Would remove" lines
+    are the files removed (same order), the names of the "Would index" lines are the repositories built (same
+    order), the repositories reported "Up to date" are the same in both runs, and the preview fails iff the
+    forced run fails (same error class). *)
+Theorem C33_announce_faithful : forall tree w c inv,
+  let d := run Dry tree w c inv in
+  let f := run Force tree w c inv in
+  announced_removals (r_out d) = performed_removals (r_ops f) /\
+  announced_indexing (r_out d) = performed_indexing (r_ops f) /\
+  announced_up_to_date (r_out d) = announced_up_to_date (r_out f) /\
+  r_status d = r_status f.
+Proof. exact announce_faithful. Qed.
+Print Assumptions C33_announce_faithful.
+
+(** The preview as it was before the repair (fix 06cdaac in /repo: IndexGitRepo(DryRun) evaluated on the
+    unpruned index) was NOT faithful: a repository moved from one root to another with an unchanged name is
+    announced "Up to date" while the same preview announces the removal of its shard and -f re-indexes it. *)
+Theorem C33_announce_faithful_refuted_before_fix : exists tree w roots inv n,
+  NoDup (map sh_file inv) /\
+  In n (announced_up_to_date (run_sync_dry_prefix tree w roots inv)) /\
+  In (n, 0) (announced_removals (run_sync_dry_prefix tree w roots inv)) /\
+  In n (performed_indexing (r_ops (run_sync Force tree w roots inv))).
+Proof.
+  exists moved_tree, moved_world, moved_roots, moved_inv, moved_name.
+  exact announce_faithful_refuted_before_fix_w.
+Qed.
+Print Assumptions C33_announce_faithful_refuted_before_fix.
+
+(** Non-vacuity: on the moved-repository state the repaired preview announces one removal and one indexing and
+    the forced run performs exactly those (two shard operations after the lock). *)
+Example C33_nonvacuous_sync :
+  let d := run Dry moved_tree moved_world (CSync moved_roots) moved_inv in
+  let f := run Force moved_tree moved_world (CSync moved_roots) moved_inv in
+  announced_removals (r_out d) = [(moved_name, 0)] /\ announced_indexing (r_out d) = [moved_name] /\
+  r_ops f = [OpMkdirAll; OpLockFile; OpRemoveShard (moved_name, 0); OpBuild moved_name moved_src_new 7] /\
+  r_status f = 0%N.
+Proof. vm_compute. repeat split; reflexivity. Qed.
+
+(** Non-vacuity (remove): selecting by name announces and performs the removal of that repository's shard;
+    an unknown selector fails in both modes without any removal. *)
+Example C33_nonvacuous_remove :
+  announced_removals (r_out (run Dry moved_tree moved_world (CRemove [moved_name]) moved_inv)) = [(moved_name, 0)] /\
+  performed_removals (r_ops (run Force moved_tree moved_world (CRemove [moved_src_old]) moved_inv)) = [(moved_name, 0)] /\
+  r_status (run Dry moved_tree moved_world (CRemove [[120]%N]) moved_inv) = E_NOT_FOUND /\
+  shard_ops (r_ops (run Force moved_tree moved_world (CRemove [[120]%N]) moved_inv)) = [].
+Proof. vm_compute. repeat split; reflexivity. Qed.
